@@ -29,14 +29,9 @@ std::string g_dir;
 
 // The run-private directory lives in RAM (/dev/shm) when that is available: truncate-and-rewrite of small
 // files on ext4 is flushed at close (auto_da_alloc) and serialises sixteen workers on the journal.
-std::string dir() {
-	if (!g_dir.empty()) return g_dir;
-	const char* d = getenv("VSIM_TMP"); std::string base = d ? d : "build/tmp";
-	if (access("/dev/shm", W_OK | X_OK) == 0) base = "/dev/shm";
-	g_dir = base + "/vsim-cli-" + std::to_string(getppid());
-	mkdir(base.c_str(), 0777); mkdir(g_dir.c_str(), 0777);
-	return g_dir;
-}
+// The path is computed by cli_prepare() BEFORE the simulated heap is switched on and has a fixed length
+// (zero-padded pid), so that neither the environment nor the pid can change the allocation sequence of a run.
+const std::string& dir() { return g_dir; }
 
 void write_file(const std::string& path, const std::string& text) { unlink(path.c_str()); std::ofstream o(path, std::ios::binary | std::ios::trunc); o << text; }
 std::string read_file(const std::string& path) { std::ifstream in(path, std::ios::binary); return std::string((std::istreambuf_iterator<char>(in)), std::istreambuf_iterator<char>()); }
@@ -194,5 +189,13 @@ Step cli_step(Rng& r, int client, long rep, long cmd, const std::string& lit_a, 
 }
 
 void register_cli_ops() { register_op("cli", op_cli); }
+
+void cli_prepare() {
+	const char* d = getenv("VSIM_TMP"); std::string base = d ? d : "build/tmp";
+	if (access("/dev/shm", W_OK | X_OK) == 0) base = "/dev/shm";
+	char pid[16]; snprintf(pid, sizeof pid, "%010d", int(getppid()));
+	g_dir = base + "/vsim-cli-" + pid;
+	mkdir(base.c_str(), 0777); mkdir(g_dir.c_str(), 0777);
+}
 
 } // namespace vsim
